@@ -229,6 +229,9 @@ class Component(CaselessDict):
         else:
             klass = types_factory.for_property(name)
             obj = klass(value)
+            if name.upper() == 'TRIGGER' and isinstance(value, datetime):
+                # the default value type of TRIGGER is DURATION
+                obj.params['VALUE'] = 'DATE-TIME'
         if parameters:
             if not hasattr(obj, "params"):
                 obj.params = Parameters()
@@ -658,6 +661,9 @@ def create_single_property(
         if not isinstance(value, value_type):
             raise TypeError(f"Use {' or '.join(t.__name__ for t in value_type)}, not {type(value).__name__}.")
         self[prop] = vProp(value)
+        if prop == "TRIGGER" and isinstance(value, datetime):
+            # the default value type of TRIGGER is DURATION
+            self[prop].params["VALUE"] = "DATE-TIME"
         if prop in self.exclusive:
             for other_prop in self.exclusive:
                 if other_prop != prop:
